@@ -54,6 +54,7 @@ def integers(rep, index):
 
 
 def strings(rep, index):
+    include(rep, "C06.I2 sanitised-strings-never-contain-0xFF-under-mode-histories", "C09", lambda sub: c09.histories(sub, index))
     include(rep, "C06.I2 sanitised-strings-never-contain-0xFF", "C09", lambda sub: c09.strings(sub, index),
             keep=lambda o: o.rule.startswith(("C09.S8", "C09.S10", "C09.S11", "C09.S6", "C09.S0")))
 
